@@ -3,10 +3,22 @@
 Tie: the real REPEX_state driven through scheduler-shaped histories (repex_tie) against the Lean
 state machine (Infretis.Repex), state-for-state after every op; then the property predicates are
 evaluated directly on the real snapshots (independent of the model).
+
+Third family (engine OBJECTS): the real `tis.def_globals` / `factory.create_engines` builds the engine
+instances (turtlemd engines, several instances per engine name); every in-flight job's engines are
+resolved exactly as `tis.select_shoot` does (`ENGINES[name][eng_idx]`) and the OBJECTS (and the exe
+directories) of concurrently in-flight jobs must be pairwise distinct.
+Fourth family (restarts with an observer): restart chains with `output.screen = 1` and with the
+probability matrix read right after `load_paths` (a legal observation that fills the `_last_prob`
+cache); the matrix the code hands to `choice` at every pick must have no mass on a busy row/column.
 """
 from __future__ import annotations
 
-import itertools
+import contextlib
+import copy
+import io
+import os
+import random
 
 import repex_tie as T
 
@@ -18,9 +30,9 @@ def predicates(ctx, sim, label):
         locks = d["locks"]
         trajs = d["trajs"].split(",")
         W = [row.split(",") for row in d["W"].split(";")]
-        ens_held = [e for (_pin, picked, _eng, _wf) in held for (e, _pn) in picked]
-        pns_held = [pn for (_pin, picked, _eng, _wf) in held for (_e, pn) in picked]
-        rep = {"history": label, "params": getattr(sim, "params", None), "ctxseed": ctx.seed, "snapshot": idx, "after": tag, "locks": locks, "trajs": d["trajs"], "held": str(held)}
+        ens_held = [e for (_pin, picked, *_r) in held for (e, _pn) in picked]
+        pns_held = [pn for (_pin, picked, *_r) in held for (_e, pn) in picked]
+        rep = {"history": label, "params": getattr(sim, "params", None), "ctxseed": ctx.seed, "snapshot": idx, "after": tag, "locks": locks, "trajs": d["trajs"], "held": str([h[:4] for h in held])}
         if len(set(ens_held)) != len(ens_held):
             ctx.fail("C03:ensemble-shared", f"an ensemble is held by two in-flight jobs: {ens_held}", rep)
         if len(set(pns_held)) != len(pns_held):
@@ -28,7 +40,7 @@ def predicates(ctx, sim, label):
         busy = sorted(i - 1 for i, l in enumerate(locks[:-1]) if l == "1")
         if busy != sorted(ens_held) or locks[-1] != "1":
             ctx.fail("C03:busy-flags-differ-from-inflight", f"busy ensembles {busy} but in flight {sorted(ens_held)}", rep)
-        for (_pin, picked, _eng, _wf) in held:
+        for (_pin, picked, *_r) in held:
             for (e, pn) in picked:
                 slot = e + 1
                 if trajs[slot] != str(pn):
@@ -40,48 +52,209 @@ def predicates(ctx, sim, label):
                 ctx.fail("C03:two-ensemble-job-not-zero-swap", f"job holds {es}", rep)
             if len(es) > 2:
                 ctx.fail("C03:job-holds-more-than-two", f"job holds {es}", rep)
-        pins = [pin for (pin, *_r) in held]
-        wfs = [wf for (*_r, wf) in held]
+        pins = [h[0] for h in held]
+        wfs = [h[3] for h in held]
         if len(set(pins)) != len(pins) or len(set(wfs)) != len(wfs):
             ctx.fail("C03:worker-directory-shared", f"pins {pins} folders {wfs}", rep)
-        for (pin, _p, _e, wf) in held:
-            if wf != f"worker{pin}":
-                ctx.fail("C03:folder-not-own", f"pin {pin} got {wf}", rep)
-        inst = [(k, i) for (_pin, _picked, eng, _wf) in held for ed in eng.values() for k, i in ed.items()]
-        per_job = [set((k, i) for ed in eng.values() for k, i in ed.items()) for (_pin, _picked, eng, _wf) in held]
+        for h in held:
+            if h[3] != f"worker{h[0]}":
+                ctx.fail("C03:folder-not-own", f"pin {h[0]} got {h[3]}", rep)
+        inst = [(k, i) for h in held for ed in h[2].values() for k, i in ed.items()]
+        per_job = [set((k, i) for ed in h[2].values() for k, i in ed.items()) for h in held]
         allinst = [x for s in per_job for x in s]
         if len(set(allinst)) != len(allinst):
             ctx.fail("C03:engine-instance-shared", f"engine instances {inst}", rep)
+        # the engine OBJECTS the jobs run with (resolved as select_shoot does) and their exe directories
+        obj_owner, dir_owner = {}, {}
+        for h in held:
+            objs, dirs = (h[4], h[5]) if len(h) > 5 else (None, None)
+            for (name, i, oid) in (objs or []):
+                if oid in obj_owner and obj_owner[oid][0] != h[0]:
+                    ctx.fail("C03:engine-object-shared",
+                             f"workers {obj_owner[oid][0]} (slot {obj_owner[oid][1]}[{obj_owner[oid][2]}]) and {h[0]} "
+                             f"(slot {name}[{i}]) run with the same engine object", rep)
+                obj_owner.setdefault(oid, (h[0], name, i))
+            for dpath in (dirs or []):
+                if dpath in dir_owner and dir_owner[dpath] != h[0]:
+                    ctx.fail("C03:exe-directory-shared", f"workers {dir_owner[dpath]} and {h[0]} run in {os.path.basename(dpath)}", rep)
+                dir_owner.setdefault(dpath, h[0])
     # zero swap only when both idle: a 2-ensemble job must appear in a snapshot whose predecessor had both free
     for idx in range(1, len(sim.snaps)):
         prev_locks = sim.snaps[idx - 1][1]["locks"]
-        prev_held = {pin for (pin, *_r) in sim.snaps[idx - 1][2]}
-        for (pin, picked, _eng, _wf) in sim.snaps[idx][2]:
+        prev_held = {h[0] for h in sim.snaps[idx - 1][2]}
+        for h in sim.snaps[idx][2]:
+            pin, picked = h[0], h[1]
             if len(picked) == 2 and sim.snaps[idx][0] == "prep":
                 was = [j for j in sim.snaps[idx - 1][2] if j[0] == pin and len(j[1]) == 2]
                 if not was and (prev_locks[0] == "1" or prev_locks[1] == "1") and pin not in prev_held:
                     ctx.fail("C03:zero-swap-started-while-busy", f"locks before {prev_locks}",
-                             {"history": label, "snapshot": idx})
+                             {"history": label, "params": getattr(sim, "params", None), "ctxseed": ctx.seed, "snapshot": idx})
+    rep0 = {"history": label, "params": getattr(sim, "params", None), "ctxseed": ctx.seed}
+    for (opi, what) in getattr(sim, "busy_picks", []):
+        ctx.fail("C03:pick-from-busy-slot", what, dict(rep0, op_index=opi))
+    for what in getattr(sim, "eng_faults", []):
+        ctx.fail("C03:engine-objects-aliased", what, rep0)
     if sim.error is not None:
-        ctx.fail("C03:sampler-raised", f"{type(sim.error).__name__}: {sim.error}", {"history": label})
+        ctx.fail("C03:sampler-raised", f"{type(sim.error).__name__}: {sim.error}", rep0)
+
+
+# ----------------------------------------------------------------------------- real engine objects
+def real_engines(sim):
+    """build the engine instances of this configuration with the REAL `tis.def_globals` (→ create_engines,
+    create_orderparameters) on turtlemd engines; returns (tis module, engine_occ, list of faults)"""
+    import tomli
+    import infretis
+    from infretis.core import tis
+    root = os.path.dirname(os.path.dirname(os.path.abspath(infretis.__file__)))
+    ex = os.path.join(root, "examples", "turtlemd", "double_well")
+    if not os.path.exists(os.path.join(ex, "infretis.toml")):
+        ex = "/repo/examples/turtlemd/double_well"
+    with open(os.path.join(ex, "infretis.toml"), "rb") as fh:
+        base = tomli.load(fh)
+    ens_engs = copy.deepcopy(sim.cfg["simulation"]["ensemble_engines"])
+    cfg = {"runner": {"workers": sim.workers}, "simulation": {"ensemble_engines": ens_engs},
+           "orderparameter": dict(base["orderparameter"], module=os.path.join(ex, "orderp.py"))}
+    for k in sim.eng_names:
+        cfg[k] = copy.deepcopy(base["engine"])
+    with contextlib.redirect_stdout(io.StringIO()):
+        occ = tis.def_globals(cfg)
+    faults = []
+    for k in sim.eng_names:
+        count = sum(1 for ee in ens_engs for e in ee if e == k)
+        want = min(count, sim.workers)
+        got = tis.ENGINES.get(k, [])
+        if len(got) != want or len(occ.get(k, [])) != want or any(x != -1 for x in occ.get(k, [])):
+            faults.append(f"engine {k}: {len(got)} instances, occupation {occ.get(k)}, expected {want} free instances")
+        if len(set(map(id, got))) != len(got):
+            faults.append(f"engine {k}: {len(got)} instance slots but only {len(set(map(id, got)))} distinct engine objects")
+    return tis, occ, faults
+
+
+# ----------------------------------------------------------------------------- one history (with restarts)
+def _check_draws(sim, locks_before, draws, opi):
+    n = sim.n
+    for kind, p in draws:
+        if p is None:
+            continue
+        if kind == "A":
+            bad = [(divmod(i, n)) for i in range(len(p)) if p[i] > 1e-12 and (locks_before[i // n] or locks_before[i % n])]
+            if bad:
+                sim.busy_picks.append((opi, f"pick() draws from a matrix with mass on busy (path row, ensemble) pairs {bad[:6]}; "
+                                            f"busy flags {''.join('1' if b else '0' for b in locks_before)}"))
+        elif kind == "K":
+            bad = [i for i in range(len(p)) if p[i] > 1e-12 and locks_before[i]]
+            if bad:
+                sim.busy_picks.append((opi, f"zero-swap partner drawn from busy rows {bad}"))
+
+
+def run_segment(ctx, n_ens, workers, steps, seed, wf, eng_types, acc_p, rng, stop_after, image, weights,
+                screen=0, probe=False, engines=False):
+    """as repex_tie._run_segment, plus: output.screen, an observation of `prob` right after load, the REAL engine
+    instances, and the matrix handed to every pick checked against the busy flags"""
+    sim = T.Sim(ctx, n_ens, workers, steps, seed=seed, wf=wf, eng_types=eng_types, rng=rng,
+                cstep=0 if image is None else image["cstep"], image=image, screen=screen)
+    sim.image = None
+    sim.busy_picks, sim.eng_faults = [], []
+    snaps, inflight, error, tis = [], [], None, None
+
+    def snap(tag):
+        d = sim.op_dump()
+        held = []
+        for md in inflight:
+            objs = None
+            if tis is not None:
+                objs = [(name, i, id(tis.ENGINES[name][i])) for dd in md["picked"].values() for name, i in dd["eng_idx"].items()]
+            dirs = sorted({os.path.realpath(dd["exe_dir"]) for dd in md["picked"].values() if "exe_dir" in dd})
+            held.append((md["pin"], [(e, dd["pn_old"]) for e, dd in md["picked"].items()],
+                         {e: dict(dd["eng_idx"]) for e, dd in md["picked"].items()}, os.path.basename(md["w_folder"]),
+                         objs, dirs))
+        snaps.append((tag, d, held))
+
+    def prep(md):
+        locks_before = [bool(x) for x in sim.st._locks]
+        try:
+            return sim.op_prep(md)
+        finally:
+            _check_draws(sim, locks_before, getattr(sim, "draws_by_op", {}).get(len(sim.lines) - 1, []), len(sim.lines) - 1)
+
+    try:
+        if engines:
+            tis, occ, sim.eng_faults = real_engines(sim)
+            if not sim.eng_faults:
+                sim.st.engine_occ = occ
+        if image is None:
+            sim.load_initial()
+        else:
+            sim.load_initial([T.FakePath(pn, weights[pn]) for pn in image["active"]],
+                             {int(k): [float(x) for x in v] for k, v in image["frac"].items()})
+        if probe:
+            sim.op_prob()       # any caller may look at the swap probabilities: this fills the `_last_prob` cache
+        snap("loaded")
+        base = {"mc_moves": sim.st.mc_moves, "interfaces": sim.st.interfaces, "cap": None}
+        while sim.op_initiate():
+            md = prep(copy.deepcopy(base))
+            inflight.append(md)
+            snap("prep")
+        while sim.op_loop():
+            md = inflight.pop(rng.randrange(len(inflight)))
+            status = "ACC" if rng.random() < acc_p else "REJ"
+            ws = sim.random_new_weights(md, rng)
+            md = sim.op_treat(md, status, ws)
+            snap("treat")
+            if stop_after is not None and sim.st.cstep >= stop_after:
+                sim.image = T.read_image(sim.tmp)
+                sim.weights_by_pn = {pn: v["weights"] for pn, v in sim.st.traj_data.items()}
+                break
+            if sim.st.cstep + sim.st.workers <= sim.st.tsteps:
+                md = prep(md)
+                inflight.append(md)
+                snap("prep")
+    except Exception as e:  # noqa: BLE001
+        error = e
+    sim.snaps = snaps
+    sim.error = error
+    sim.inflight_end = inflight
+    sim.close()
+    return sim
+
+
+def norm(params):
+    """(n_ens, workers, steps, seed, wf, eng_types, acc_p[, with_model, restarts, screen, probe, engines])"""
+    p = list(params) + [True, [], 0, False, False][max(0, len(params) - 7):]
+    return dict(n_ens=p[0], workers=p[1], steps=p[2], seed=p[3], wf=p[4], et=p[5], acc=p[6], with_model=bool(p[7]),
+                restarts=[int(x) for x in p[8]], screen=int(p[9]), probe=bool(p[10]), engines=bool(p[11]))
 
 
 def one(ctx, params, with_model, outs):
-    n_ens, workers, steps, seed, wf, et, acc = params[:7]
-    label = f"n_ens={n_ens} workers={workers} steps={steps} seed={seed} wf={wf} eng_types={et} acc_p={acc} ctxseed={ctx.seed}"
-    import random
-    sim = T.run_history(ctx, n_ens, workers, steps, seed=seed, wf=wf, eng_types=et, acc_p=acc,
-                        rng=random.Random(label))
-    sim.params = list(params)
-    ctx.count(len(sim.snaps), history=f"n{n_ens}w{workers}")
-    two = sum(1 for (_t, _d, held) in sim.snaps for j in held if len(j[1]) == 2)
-    ctx.hit("snapshots_with_zero_swap_in_flight", two)
-    for (tag, d, held) in sim.snaps:
-        ctx.distinct((d["W"], d["trajs"], d["locks"], str(held)))
-    predicates(ctx, sim, label)
-    if with_model:
-        outs.append((sim, label))
-    return sim
+    q = norm(params)
+    label = (f"n_ens={q['n_ens']} workers={q['workers']} steps={q['steps']} seed={q['seed']} wf={q['wf']} eng_types={q['et']} "
+             f"acc_p={q['acc']} restarts={q['restarts']} screen={q['screen']} probe={q['probe']} real_engines={q['engines']} ctxseed={ctx.seed}")
+    rng = random.Random(label)
+    sims, image, weights = [], None, None
+    for stop in list(q["restarts"]) + [None]:
+        sim = run_segment(ctx, q["n_ens"], q["workers"], q["steps"], q["seed"], q["wf"], q["et"], q["acc"], rng, stop, image, weights,
+                          screen=q["screen"], probe=q["probe"], engines=q["engines"])
+        sim.params = list(params)
+        sims.append(sim)
+        if stop is None or sim.error is not None or sim.image is None:
+            break
+        image, weights = sim.image, sim.weights_by_pn
+    kind = "engines" if q["engines"] else ("restart" if q["restarts"] else "plain")
+    for k, sim in enumerate(sims):
+        ctx.count(len(sim.snaps), history=f"n{q['n_ens']}w{q['workers']}", family=kind)
+        two = sum(1 for (_t, _d, held) in sim.snaps for j in held if len(j[1]) == 2)
+        ctx.hit("snapshots_with_zero_swap_in_flight", two)
+        if k > 0:
+            ctx.hit("restarted_segments", 1)
+            ctx.hit("jobs_reissued_after_restart", sum(1 for l in sim.lines if l.startswith("locked0 ")))
+        for (tag, d, held) in sim.snaps:
+            ctx.distinct((d["W"], d["trajs"], d["locks"], str([h[:4] for h in held])))
+            if d.get("_prob_stale") not in ("0", None):
+                ctx.hit("snapshots_with_stale_probability_cache", 1)
+        predicates(ctx, sim, label + (f" segment={k}" if k else ""))
+        if with_model:
+            outs.append((sim, label + (f" segment={k}" if k else "")))
+    return sims[-1]
 
 
 def run(ctx):
@@ -89,7 +262,9 @@ def run(ctx):
     ctx.rule = ("scheduler-shaped histories of the real REPEX_state (initiate/prep…, loop/treat_output/prep…) with all "
                 "random outcomes (pick, coin, partner, completion order, accept/reject, new weight vectors) drawn from "
                 "the check's PRNG among the admissible ones; grid over (ensembles 2..5, workers 1..ensembles-1) plus "
-                "random deep runs up to 8 ensembles; distinct = distinct (W, slot order, locks, in-flight jobs) snapshots")
+                "random deep runs up to 8 ensembles; restart chains (stop with jobs in flight, re-issue, up to 2 restarts) with "
+                "and without output.screen=1 / an observation of `prob` after load; histories on the REAL engine instances "
+                "(def_globals → create_engines, turtlemd); distinct = distinct (W, slot order, locks, in-flight jobs) snapshots")
     plans = []
     for n_ens in (2, 3, 4, 5):
         for w in range(1, n_ens):
@@ -99,9 +274,26 @@ def run(ctx):
         n_ens = rng.randint(5, 8)
         plans.append((n_ens, rng.randint(1, n_ens - 1), rng.randint(40, 120 if ctx.quick else 300), rng.randint(0, 9),
                       rng.random() < 0.5, rng.randint(1, 3), rng.choice([0.3, 0.7, 0.95]), n_ens <= 5))
+    # restart chains: the stop leaves workers-1 jobs in flight, the restart re-issues them and then picks afresh
+    observers = [(1, False), (0, True), (1, True), (0, False)]
+    for i in range(12 if ctx.quick else 72):
+        n_ens = rng.randint(3, 7)
+        w = rng.randint(2, n_ens - 1) if n_ens > 3 else 2
+        steps = rng.randint(12, 30)
+        stops = sorted(rng.sample(range(1, steps - w - 1), rng.choice([1, 1, 2])))
+        screen, probe = observers[i % 4]
+        plans.append((n_ens, w, steps, rng.randint(0, 9), rng.random() < 0.5, rng.randint(1, 2), rng.choice([0.3, 0.7, 0.95]),
+                      n_ens <= 5, stops, screen, probe, False))
+    # the real engine objects
+    for i in range(8 if ctx.quick else 40):
+        n_ens = rng.randint(3, 7)
+        w = rng.randint(2, n_ens - 1) if n_ens > 3 else 2
+        steps = rng.randint(10, 30)
+        stops = [] if i % 3 else [rng.randint(1, steps - w - 1)]
+        plans.append((n_ens, w, steps, rng.randint(0, 9), False, rng.randint(1, 3), 0.7, False, stops, 0, False, True))
     outs = []
     for p in plans:
-        one(ctx, p[:7], p[7] and ctx._driver_ok, outs)
+        one(ctx, p, p[7] and ctx._driver_ok, outs)
     for sim, label in outs:
         model = ctx.driver(sim.lines)
         T.compare(ctx, sim, model, label)
@@ -109,12 +301,19 @@ def run(ctx):
     if outs:
         s = outs[-1][0]
         ctx.sample({"history": outs[-1][1], "a_snapshot": s.snaps[len(s.snaps) // 2][1]["locks"],
-                    "in_flight": str(s.snaps[len(s.snaps) // 2][2])})
-    ctx.assumptions += [
+                    "in_flight": str([h[:4] for h in s.snaps[len(s.snaps) // 2][2]])})
+    new_assumptions = [
         "the MD move is abstracted to its outcome (status + new weight vectors in the staircase family)",
         "histories with more than 5 ensembles are checked by the direct predicates only (the model's exact permanents are exponential)",
         "two OS processes given different folders do not touch each other's files (not checked)",
+        "an engine instance of the model is the pair (engine type, index); that distinct indices are distinct engine OBJECTS "
+        "(create_engines builds min(count, workers) separate instances per name) is established by the tie on the real "
+        "def_globals/create_engines with turtlemd engines, resolving every job's engines as select_shoot does",
+        "the model has no probability cache (`prob` is a function of (W, locks)); coherence of the code's `_last_prob` cache is "
+        "tie-only: restart chains are run with output.screen=1 and with `prob` read right after load, and the matrix handed to "
+        "every pick is compared with the model's and must carry no mass on a busy row/column",
     ]
+    ctx.assumptions += [a for a in new_assumptions if a not in ctx.assumptions]   # run() is re-entered on escalation
 
 
 def replay(ctx, obj):
